@@ -2658,6 +2658,7 @@ impl Monitor for C15 {
         v.push(("ipv6_tc_setters", 16));
         // the complete u32 domain of the flow label is cheap enough for both tiers
         v.push(("ctor_flow_label_full", 4096));
+        v.push(("api", tier.pick(64, 640)));
         if tier == Tier::Thorough {
             v.push(("dec_ipv6_full", 4096));
             v.push(("enc_ipv6_full", 4096));
@@ -2668,6 +2669,7 @@ impl Monitor for C15 {
     fn run_case(&mut self, engine: &str, idx: u64, rng: &mut Prng, rep: &mut Report) {
         self.selfcheck(rep);
         match engine {
+            "api" => super::api::c15(rep, rng),
             "ctor_u8" => {
                 if idx < 96 {
                     let ty = U8_TYPES[(idx / 16) as usize];
